@@ -195,6 +195,9 @@ theorem C07_partial_waits (side : Side) (maxLen : Int) (p : Bytes) (hp : Legal m
   simp only at h1 h3'
   rw [h1, h3']
 
+/-- non-vacuity: the first three bytes of `frame [7]` (5 bytes) with `maxLen = 5` -/
+example : Legal 5 ([7] : Bytes) ∧ 3 < (frame ([7] : Bytes)).length := by unfold Legal; decide
+
 /-- **The receive loops never panic** on any input (no slice expression goes out of range). -/
 theorem C07_no_panic (side : Side) (maxLen : Int) (cs : List Bytes) :
     (feedAll side maxLen Conn.init cs).1.status ≠ .panicked :=
